@@ -80,7 +80,7 @@ fn make_report(end: End, probe_ids: Vec<usize>, followup_id: Option<usize>, prob
         followup_id,
         probe_started,
         threads: st.threads.clone(),
-        panics: PANICS.lock().unwrap().clone(),
+        panics: code_panics(),
         sig: st.sig,
         events: st.events,
         steps,
@@ -94,6 +94,12 @@ fn make_report(end: End, probe_ids: Vec<usize>, followup_id: Option<usize>, prob
         max_inside: st.max_inside,
         submitted: st.submitted,
     }
+}
+
+/// panics raised by the code under test (the scheduler's own verdicts - deadlock, step bound - are
+/// reported through `End`)
+fn code_panics() -> Vec<PanicRec> {
+    PANICS.lock().unwrap().iter().filter(|p| !p.msg.starts_with("deadlock!") && !p.msg.starts_with("exceeded max_steps")).cloned().collect()
 }
 
 /// Report built outside the execution (after shuttle gave up: deadlock or step bound).
@@ -110,7 +116,7 @@ pub fn report_after_abort(end: End) -> Report {
         probe_ids,
         followup_id: None,
         threads: st.threads.clone(),
-        panics: PANICS.lock().unwrap().clone(),
+        panics: code_panics(),
         sig: st.sig,
         events: st.events,
         steps: 0,
